@@ -17,6 +17,7 @@ theorem ccParent_lt (i : Nat) (h : i ≠ 0) : ccParent i < i := by
   omega
 
 structure PQueue where
+  triple   : Triple := .conf    -- `mem_alloc/mem_calloc/mem_free` copied from the configuration
   size     : Nat
   capacity : Nat
   buf      : Buf Nat
@@ -28,17 +29,17 @@ namespace PQueue
 def ptrSize : Nat := 8
 
 /-- `cc_pqueue_new_conf` (the struct is calloc'ed, so `size = 0`) -/
-def new (cap : Nat) (exGe : Nat → Bool) (m : Mem) : Stat × Option PQueue × Mem :=
+def new (cap : Nat) (exGe : Nat → Bool) (t : Triple) (m : Mem) : Stat × Option PQueue × Mem :=
   if cap = 0 || exGe (Gen.CC_MAX_ELEMENTS / cap) then (.errInvalidCapacity, none, m) else
   if cap > Gen.CC_MAX_ELEMENTS / ptrSize then (.errInvalidCapacity, none, m) else
-  let a1 := m.alloc                       -- mem_calloc(1, sizeof(CC_PQueue))
+  let a1 := m.allocT t                    -- mem_calloc(1, sizeof(CC_PQueue))
   if !a1.1 then (.errAlloc, none, a1.2) else
-  let a2 := a1.2.alloc                    -- mem_alloc(capacity * sizeof(void*))
-  if !a2.1 then (.errAlloc, none, a2.2.free) else
-  (.ok, some { size := 0, capacity := cap, buf := Buf.mk cap }, a2.2)
+  let a2 := a1.2.allocT t                 -- mem_alloc(capacity * sizeof(void*))
+  if !a2.1 then (.errAlloc, none, a2.2.freeT t) else
+  (.ok, some { triple := t, size := 0, capacity := cap, buf := Buf.mk cap }, a2.2)
 
 /-- `cc_pqueue_destroy` -/
-def destroy (_q : PQueue) (m : Mem) : Mem := m.free.free
+def destroy (q : PQueue) (m : Mem) : Mem := (m.freeT q.triple).freeT q.triple
 
 /-- `cc_pqueue_destroy_cb`: the elements handed to the callback (buffer order), then `destroy` -/
 def destroyCb (q : PQueue) (m : Mem) : List Nat × Mem :=
@@ -56,11 +57,11 @@ def expandCapacity (grow : Nat → Nat) (q : PQueue) (m : Mem) : Stat × PQueue 
   if q.capacity = Gen.CC_MAX_ELEMENTS then (.errMaxCapacity, q, m) else
   let nc := newCapacity grow q
   if nc > Gen.CC_MAX_ELEMENTS / ptrSize then (.errMaxCapacity, q, m) else
-  let al := m.alloc                       -- mem_alloc(new_capacity * sizeof(void*))
+  let al := m.allocT q.triple             -- mem_alloc(new_capacity * sizeof(void*))
   if !al.1 then (.errAlloc, q, al.2) else
   let m := al.2.check (q.size ≤ q.buf.length && q.size ≤ nc)
   let nb := (Buf.mk nc : Buf Nat).memcpy 0 q.buf 0 q.size
-  let m := m.free
+  let m := m.freeT q.triple
   (.ok, { q with buf := nb, capacity := nc }, m)
 
 /-- `tmp = b[i]; b[i] = b[j]; b[j] = tmp` -/
@@ -126,15 +127,19 @@ decreasing_by
   simp only [ccLeft, ccRight] at this
   omega
 
-/-- `cc_pqueue_pop` (`out` may be NULL in C; the model always reports the element) -/
-def pop (cmp : Nat → Nat → Int) (q : PQueue) (m : Mem) : Stat × Option Nat × PQueue × Mem :=
+/-- `cc_pqueue_pop`; `wantOut = false` is the call with `out == NULL`: the element is removed all the
+same, only the store `*out = tmp` is skipped -/
+def popOut (cmp : Nat → Nat → Int) (q : PQueue) (wantOut : Bool) (m : Mem) : Stat × Option Nat × PQueue × Mem :=
   if q.size = 0 then (.errOutOfRange, none, q, m) else
   let m := m.check (q.size - 1 < q.buf.length)
   let buf := swap q.buf 0 (q.size - 1)
   let tmp := buf.get (q.size - 1)
   let size := q.size - 1
   let r := heapify cmp buf size 0 m
-  (.ok, some tmp, { q with buf := r.1, size := size }, r.2)
+  (.ok, if wantOut then some tmp else none, { q with buf := r.1, size := size }, r.2)
+
+/-- `cc_pqueue_pop` with a non-NULL `out` -/
+def pop (cmp : Nat → Nat → Int) (q : PQueue) (m : Mem) : Stat × Option Nat × PQueue × Mem := popOut cmp q true m
 
 /-- abstraction: the held elements (a multiset; here in buffer order) -/
 def abs (q : PQueue) : List Nat := q.buf.firstN q.size
